@@ -254,7 +254,10 @@ STRICT_ROWS = set(TEXT_EDITS_ROWS)
 
 
 def is_strict(case) -> bool:
-    return case["layout"] == "rows" and all(e in STRICT_ROWS for e in case["edits"])
+    """rows layout with strict edits only, or an unedited columns export with at least two scans (edit "none")"""
+    if case["layout"] == "cols":
+        return case["edits"] == ["none"]
+    return all(e in STRICT_ROWS for e in case["edits"])
 
 
 def small_acq(rng, decimal):
@@ -447,10 +450,15 @@ def generate_text(rng, tier, layout=None, edits=None):
     delimiter, decimal = rng.choice([(",", "."), (";", "."), (";", ",")])
     a = small_acq(rng, decimal)
     layout = layout or rng.choice(["rows", "cols"])
+    if layout == "cols" and edits == ["none"]:
+        while a["nscans"] < 2:                      # one scan is below the property's quantifier (a single selected line raises)
+            a = small_acq(rng, decimal)
     if edits is None:
         r = rng.random()
         if layout == "cols":
             edits = rng.sample(TEXT_EDITS_COLS, 1 if r < 0.75 else 2)
+            if edits == ["none"]:
+                return generate_text(rng, tier, layout="cols", edits=["none"])
         elif r < 0.6:
             edits = [rng.choice(TEXT_EDITS_ROWS)]
         elif r < 0.75:
@@ -471,7 +479,7 @@ def generate_text(rng, tier, layout=None, edits=None):
             continue                                # an earlier edit removed what this one would change
         final = final and f
         done.append(e)
-    edits = done or ["none"]
+    edits = done or ["unedited"]
     lines = ["" if r is None else delimiter.join(r) for r in t]
     return {"kind": "text", "layout": layout, "edits": list(edits), "lines": lines, "final_eol": final, "delimiter": delimiter,
             "decimal": decimal, "explicit_delimiter": rng.random() < 0.4, "bom": rng.random() < 0.3, "eol": rng.choice(["\r\n", "\n"])}
